@@ -704,8 +704,15 @@ pub fn run_check<P: Property>(p: Arc<P>, tier: Tier, seed: u64) -> i32 {
                 .unwrap(),
         );
     }
+    let mut driver_panicked = false;
     for h in handles {
-        let _ = h.join();
+        if h.join().is_err() {
+            driver_panicked = true;
+        }
+    }
+    if driver_panicked {
+        eprintln!("MACHINERY BROKEN property={id}: a driver thread panicked (generator or engine bug); the run is incomplete and is no verdict");
+        return 2;
     }
     let mut results = std::mem::take(&mut *shared.results.lock().unwrap());
     results.sort_by_key(|r| r.item);
@@ -718,6 +725,10 @@ pub fn run_check<P: Property>(p: Arc<P>, tier: Tier, seed: u64) -> i32 {
         return 2;
     }
 
+    if !results.iter().any(|r| matches!(r.kind, ResKind::Fail { .. })) && results.len() != n_items {
+        eprintln!("MACHINERY BROKEN property={id}: {} of {n_items} cases produced a result", results.len());
+        return 2;
+    }
     // first failure in item order -> shrink -> replay file
     if let Some(f) = results.iter().find(|r| matches!(r.kind, ResKind::Fail { .. })) {
         let (fi, i) = shared.items[f.item];
